@@ -234,7 +234,7 @@ def tlc_scenarios(run, role, family, depth, simulate=None, keep=None, rnd=None, 
     return scns
 
 
-def run_driver(run, binp, scns, name):
+def run_driver(run, binp, scns, name, testname="TestScenarios", extra_env=None):
     """Replay scenarios on the real code, sharded over processes; returns trace file paths."""
     scn_path = os.path.join(run.dir, name + ".scn.ndjson")
     with open(scn_path, "w") as f:
@@ -246,8 +246,10 @@ def run_driver(run, binp, scns, name):
         tr = os.path.join(run.dir, "%s.trace.%d.ndjson" % (name, i))
         env = goenv()
         env.update(VERIF_SCN=scn_path, VERIF_TRACE=tr, VERIF_SHARD="%d/%d" % (i, shards))
+        if extra_env:
+            env.update(extra_env)
         lf = open(tr + ".log", "w")
-        procs.append((subprocess.Popen([binp, "-test.run", "TestScenarios", "-test.timeout", "50m"], env=env, stdout=lf, stderr=subprocess.STDOUT), tr, lf))
+        procs.append((subprocess.Popen([binp, "-test.run", "^" + testname + "$", "-test.timeout", "50m"], env=env, stdout=lf, stderr=subprocess.STDOUT), tr, lf))
     traces = []
     for p, tr, lf in procs:
         try:
@@ -268,7 +270,9 @@ def trace_cfg(path):
 
 
 def validate_one(args):
-    run_dir, path, idx = args
+    run_dir, path, idx = args[:3]
+    module = args[3] if len(args) > 3 else "SessionTrace"
+    mods = args[4] if len(args) > 4 else ["Session.tla", "SessionTrace.tla"]
     n = 0
     with open(path) as f:
         for _ in f:
@@ -276,14 +280,15 @@ def validate_one(args):
     if n == 0:
         return (path, 0, None, [])
     wd = os.path.join(run_dir, "tv-%d" % idx)
-    res = tlc("SessionTrace", trace_cfg(path), wd, ["Session.tla", "SessionTrace.tla"], workers=1, timeout=3000, heap="3g")
+    res = tlc(module, trace_cfg(path), wd, mods, workers=1, timeout=3000, heap="3g")
     return (path, n, res, None)
 
 
-def validate(run, traces):
+def validate(run, traces, module="SessionTrace", mods=None):
     rejects = []
+    mods = mods or ["Session.tla", "SessionTrace.tla"]
     with concurrent.futures.ThreadPoolExecutor(max_workers=min(8, NCPU)) as ex:
-        for path, n, res, _ in ex.map(validate_one, [(run.dir, p, i) for i, p in enumerate(traces)]):
+        for path, n, res, _ in ex.map(validate_one, [(run.dir, p, i, module, mods) for i, p in enumerate(traces)]):
             if n == 0:
                 continue
             if not res.ok:
